@@ -9,6 +9,7 @@ import (
 
 	"hop.computer/hop/authgrants"
 	"hop.computer/hop/certs"
+	"hop.computer/hop/keys"
 	"hop.computer/hop/transport"
 )
 
@@ -60,4 +61,9 @@ func (v *VerifSession) Actions() int { return len(v.s.authorizedActions) }
 // CheckIntent is the target-side policy check for further grant issuing.
 func (v *VerifSession) CheckIntent(i authgrants.Intent, c *certs.Certificate) error {
 	return v.s.checkIntent(i, c)
+}
+
+// VerifGrantNames lists the command texts of the grants still stored for user/key.
+func VerifGrantNames(s *HopServer, user string, key keys.DHPublicKey) []string {
+	return s.agMap.VerifNames(user, key)
 }
